@@ -15,6 +15,7 @@ import (
 	"sync"
 	"sync/atomic"
 	"time"
+	"verifharness/hx"
 
 	"github.com/GoogleCloudPlatform/grpc-gcp-go/grpcgcp"
 	pb "github.com/GoogleCloudPlatform/grpc-gcp-go/grpcgcp/grpc_gcp"
@@ -178,6 +179,7 @@ type Case struct {
 	NoDialFunc bool    `json:"noDialFunc,omitempty"`      // no DialFunc in the options: the library dials itself with the caller\'s options (reduced scenario, see RunDefaultDialer)
 	ExtClose   int     `json:"extClose,omitempty"`        // >0: right before Close the application itself closes the connection of one endpoint (the one with this index among the open pools) that it had handed out through its DialFunc
 	LateAppend bool    `json:"lateAppend,omitempty"`      // the caller passes its dial options as a slice with spare capacity and appends more options to that slice after the constructor returned
+	Stale      int     `json:"staleMonitor,omitempty"`    // >0: reduced scenario RunStaleMonitor (remove an endpoint, add it again, the old pool\'s monitor reports late); the value selects the endpoints
 	Init       Options `json:"init"`
 	Ops        []Op    `json:"ops"`
 	Failure    *Fail   `json:"failure,omitempty"`
@@ -593,6 +595,8 @@ func (w *world) corrupt(o *grpcgcp.GCPMultiEndpointOptions, kind string, nth int
 		return false
 	case "nil-options":
 		o.MultiEndpoints[names[nth%len(names)]] = nil
+	case "nil-pointer":
+		// the caller passes no options object at all (handled by the op: o = nil)
 	case "dialfail":
 		need := 0
 		for e := range mentionedOpts(o) {
@@ -640,6 +644,9 @@ func waitBaseline(g0, m0 int) bool {
 
 // Run executes one case.
 func Run(c *Case, props map[string]bool) (res Result) {
+	if c.Stale > 0 {
+		return RunStaleMonitor(c, props)
+	}
 	if c.NoDialFunc {
 		return RunDefaultDialer(c, props)
 	}
@@ -693,6 +700,9 @@ func Run(c *Case, props map[string]bool) (res Result) {
 		o, _, _ := c.Init.build(w)
 		w.failAt, w.dialsInCall = 0, 0
 		if w.corruptInit(o, c.BadInit) {
+			if c.BadInit == "nil-pointer" {
+				o = nil
+			}
 			gme, err := grpcgcp.NewGCPMultiEndpoint(o)
 			w.failAt = 0
 			if err == nil {
@@ -931,6 +941,9 @@ func Run(c *Case, props map[string]bool) (res Result) {
 			for e := range w.dialed {
 				openBefore[e] = w.open(e) > 0
 			}
+			if op.Bad == "nil-pointer" {
+				o = nil
+			}
 			err := gme.UpdateMultiEndpoints(o)
 			w.failAt = 0
 			if err == nil {
@@ -1008,6 +1021,15 @@ func Run(c *Case, props map[string]bool) (res Result) {
 		}
 		w.labels["closed-twice"]++
 	}
+	if len(c.Ops)%2 == 0 {
+		// an update that arrives after Close (a configuration watcher that has not noticed yet) is refused and
+		// leaves nothing behind
+		lo, _, _ := c.Init.build(w)
+		if err := gme.UpdateMultiEndpoints(lo); err == nil {
+			w.fail("C16", "update-after-close", "UpdateMultiEndpoints on a closed GCPMultiEndpoint returned nil")
+		}
+		w.labels["update-after-close"]++
+	}
 	for e, conns := range w.dialed {
 		for _, cc := range conns {
 			if cc.GetState() != connectivity.Shutdown {
@@ -1035,6 +1057,7 @@ func (w *world) corruptInit(o *grpcgcp.GCPMultiEndpointOptions, kind string) boo
 		o.MultiEndpoints[names[0]] = &multiendpoint.MultiEndpointOptions{}
 	case "nil-options":
 		o.MultiEndpoints[names[len(names)-1]] = nil
+	case "nil-pointer":
 	case "dialfail":
 		w.failAt = len(mentionedOpts(o)) // the last dial fails: the earlier ones must be rolled back
 	case "dialfail-first":
@@ -1075,6 +1098,14 @@ func Dial(ctx context.Context, target string, dopts ...grpc.DialOption) (*grpc.C
 	dopts = append(dopts, grpc.WithChainUnaryInterceptor(rec), grpc.WithContextDialer(e.dial), grpc.WithTransportCredentials(insecure.NewCredentials()),
 		grpc.WithConnectParams(grpc.ConnectParams{Backoff: backoff.Config{BaseDelay: 2 * time.Millisecond, Multiplier: 1, MaxDelay: 2 * time.Millisecond}, MinConnectTimeout: 50 * time.Millisecond}))
 	return grpc.Dial("passthrough:///"+target, dopts...)
+}
+
+// Live is the number of open transport connections of an in-memory endpoint.
+func Live(target string) int {
+	if e := endpoints()[target]; e != nil {
+		return e.liveConns()
+	}
+	return 0
 }
 
 // SetUp makes an in-memory endpoint reachable or not (closing its live connections).
@@ -1267,5 +1298,116 @@ func RunDefaultDialer(c *Case, props map[string]bool) (res Result) {
 		w.fail("C16", "close-goroutines", "goroutines after Close: %d, before construction: %d (monitors still running: %d)", runtime.NumGoroutine(), g0, monitors()-m0)
 	}
 	w.labels["closed"]++
+	return
+}
+
+// RunStaleMonitor is a reduced scenario with an owned schedule: the monitor goroutine of a pool that an update
+// removes is held (through the log hook, at the line where it reports the state it has just read) until the endpoint
+// has been added again and its new pool is READY; then it is let go. A removed pool must not influence routing any
+// more (C15: "pools of endpoints no longer mentioned are closed and their monitors stopped", "routing ... follows").
+// Needs the verbose logger (hx.Verbose()) and a library that logs state changes; otherwise it only checks the
+// remove / re-add sequence itself.
+func RunStaleMonitor(c *Case, props map[string]bool) (res Result) {
+	w := &world{props: props, labels: map[string]int{}, dialed: map[string][]*grpc.ClientConn{}, up: map[string]bool{}, mes: map[string][]string{}}
+	res.Labels = w.labels
+	all := endpoints()
+	for _, n := range EPNames {
+		all[n].set(true)
+		w.up[n] = true
+	}
+	runtime.Gosched()
+	g0, m0 := runtime.NumGoroutine(), monitors()
+	var gme *grpcgcp.GCPMultiEndpoint
+	release := make(chan struct{})
+	released := false
+	letGo := func() {
+		if !released {
+			released = true
+			close(release)
+		}
+	}
+	defer func() {
+		hx.LogHook.Store(nil)
+		letGo()
+		if gme != nil {
+			func() {
+				defer func() { recover() }()
+				gme.Close()
+			}()
+		}
+		for _, conns := range w.dialed {
+			for _, cc := range conns {
+				cc.Close()
+			}
+		}
+		waitBaseline(g0, m0)
+		if r := recover(); r != nil {
+			switch x := r.(type) {
+			case failure:
+				res.Fail = x.f
+			case abortOther:
+				res.Aborted = x.prop
+			default:
+				res.Fail = &Fail{Prop: "C15", Rule: "panic", Step: w.step, Msg: fmt.Sprint(r)}
+			}
+		}
+	}()
+	perm := c.Stale
+	E, F := EPNames[(perm-1)%len(EPNames)], EPNames[perm%len(EPNames)]
+	mk := func(l ...string) *grpcgcp.GCPMultiEndpointOptions {
+		return &grpcgcp.GCPMultiEndpointOptions{MultiEndpoints: map[string]*multiendpoint.MultiEndpointOptions{"d": {Endpoints: l}}, Default: "d", DialFunc: w.dialFunc}
+	}
+	var err error
+	if gme, err = grpcgcp.NewGCPMultiEndpoint(mk(E, F)); err != nil {
+		w.fail("C15", "construct", "NewGCPMultiEndpoint rejected valid options: %v", err)
+	}
+	follow := func(what, want string) {
+		deadline := time.Now().Add(10 * time.Second)
+		for {
+			got := Probe(gme, "", 300*time.Millisecond)
+			if got == want {
+				return
+			}
+			if time.Now().After(deadline) {
+				w.fail("C15", "routing-after-readd", "%s: 10s later the default MultiEndpoint still enters pool %q, want %q (both endpoints reachable all the time)", what, got, want)
+			}
+			time.Sleep(2 * time.Millisecond)
+		}
+	}
+	follow("create", E)
+	blocked := make(chan struct{}, 1)
+	var once sync.Once
+	hook := func(msg string) {
+		if strings.Contains(msg, "endpoint state changed to SHUTDOWN") && strings.Contains(msg, fmt.Sprintf("%q", E)) {
+			held := false
+			once.Do(func() { held = true })
+			if held {
+				blocked <- struct{}{}
+				<-release
+			}
+		}
+	}
+	hx.LogHook.Store(&hook)
+	w.step = 0
+	if err := gme.UpdateMultiEndpoints(mk(F)); err != nil {
+		w.fail("C15", "update-rejected", "valid update rejected: %v", err)
+	}
+	select {
+	case <-blocked:
+		w.labels["monitor-of-removed-pool-held-before-its-last-report"]++
+	case <-time.After(2 * time.Second):
+		w.labels["monitor-of-removed-pool-not-observed"]++ // logging off, or the library does not log there
+	}
+	follow("endpoint removed", F)
+	w.step = 1
+	if err := gme.UpdateMultiEndpoints(mk(E, F)); err != nil {
+		w.fail("C15", "update-rejected", "valid update rejected: %v", err)
+	}
+	follow("endpoint added again", E)
+	letGo()
+	w.step = 2
+	time.Sleep(time.Duration(20+c.MinSize*10) * time.Millisecond) // the late report, if any, lands now
+	follow("after the removed pool's monitor made its last report", E)
+	w.labels["remove-and-readd"]++
 	return
 }
